@@ -133,9 +133,108 @@ def rcs380_build(repo):
     return py2coq.Fn(fn, {'data': B}, coqname='gen_rcs380_build').translate()
 
 
+class _ParseFn(py2coq.Fn):
+    """expression translator for the response validation of Chipset.command (frame : bytes, cmd_code : int)"""
+
+    def expr(self, e, env):
+        # frame.startswith(x)
+        if isinstance(e, ast.Call) and isinstance(e.func, ast.Attribute) and e.func.attr == 'startswith' \
+                and isinstance(e.func.value, ast.Name) and len(e.args) == 1 and not e.keywords:
+            a, ta = self.expr(e.func.value, env)
+            b, tb = self.expr(e.args[0], env)
+            if ta != B or tb != B:
+                raise Unsupported('startswith operands')
+            return '(py_startswith %s %s)' % (a, b), 'bool'
+        # unpack(">H", memoryview(x))[0]  /  unpack(">H", x)[0]
+        if isinstance(e, ast.Subscript) and isinstance(e.value, ast.Call) and ast.unparse(e.value.func) in ('unpack', 'struct.unpack') \
+                and isinstance(e.slice, ast.Constant) and e.slice.value == 0 and len(e.value.args) == 2 \
+                and isinstance(e.value.args[0], ast.Constant) and e.value.args[0].value == '>H':
+            arg = e.value.args[1]
+            if isinstance(arg, ast.Call) and ast.unparse(arg.func) == 'memoryview' and len(arg.args) == 1:
+                arg = arg.args[0]
+            a, ta = self.expr(arg, env)
+            if ta != B:
+                raise Unsupported('unpack operand')
+            return '(unpack_be16 %s)' % a, I
+        return super().expr(e, env)
+
+
+def _is_log(s):
+    return isinstance(s, ast.Expr) and isinstance(s.value, ast.Call) and ast.unparse(s.value.func).startswith('self.log.')
+
+
+def _terminal(stmts):
+    last = [x for x in stmts if not _is_log(x)]
+    if not last:
+        return False
+    t = last[-1]
+    if isinstance(t, (ast.Raise, ast.Return)):
+        return True
+    return isinstance(t, ast.Expr) and ast.unparse(t.value).startswith('self.chipset_error(')
+
+
+def _parse_block(fn, stmts, env, rest):
+    """stmts followed by the (already translated) continuation text `rest` (None = function end)"""
+    stmts = [x for x in stmts if not _is_log(x)]
+    if not stmts:
+        if rest is None:
+            raise Unsupported('response validation may fall off the end')
+        return rest
+    s, tail = stmts[0], stmts[1:]
+    k = lambda: _parse_block(fn, tail, env, rest)   # noqa: E731
+    if isinstance(s, ast.Raise):
+        if tail or ast.unparse(s.exc) != 'IOError(errno.EIO, os.strerror(errno.EIO))':
+            raise Unsupported('raise form: ' + ast.unparse(s))
+        return '(Err IOErr)'
+    if isinstance(s, ast.Expr) and ast.unparse(s.value).startswith('self.chipset_error('):
+        a = s.value.args
+        if tail or len(a) != 1 or not isinstance(a[0], ast.Constant) or not isinstance(a[0].value, int):
+            raise Unsupported('chipset_error form')
+        return '(Err (ChipsetError %d))' % a[0].value
+    if isinstance(s, ast.Return):
+        if tail:
+            raise Unsupported('code after return')
+        t, ty = fn.expr(s.value, env)
+        if ty != B:
+            raise Unsupported('return type')
+        return '(Ok %s)' % t
+    if isinstance(s, ast.Delete):
+        if len(s.targets) != 1 or not isinstance(s.targets[0], ast.Subscript) or ast.unparse(s.targets[0].value) != 'frame' \
+                or not isinstance(s.targets[0].slice, ast.Slice):
+            raise Unsupported('del form')
+        sl = s.targets[0].slice
+        if ast.unparse(sl.lower) != '0' or sl.step is not None:
+            raise Unsupported('del slice')
+        n, ty = fn.expr(sl.upper, env)
+        return '(let frame := pyslice frame %s (len frame) in\n%s)' % (n, k())
+    if isinstance(s, ast.If):
+        c = fn.truth(*fn.expr(s.test, env))
+        cont = k()
+        tb = _parse_block(fn, s.body, env, cont)
+        eb = _parse_block(fn, s.orelse, env, cont) if s.orelse else cont
+        return '(if %s\n then %s\n else %s)' % (c, tb, eb)
+    raise Unsupported('statement in response validation: ' + type(s).__name__)
+
+
+def pn53x_parse(repo):
+    tree = ast.parse(open(os.path.join(repo, 'src/nfc/clf/pn53x.py')).read())
+    cmd = _cls_method(tree, 'Chipset', 'command')
+    sof = _class_const_bytes(tree, 'Chipset', 'SOF')
+    body = cmd.body
+    # the validation starts after the `while frame == self.ACK` loop and runs to the end of the method
+    loops = [i for i, x in enumerate(body) if isinstance(x, ast.While) and ast.unparse(x.test) == 'frame == self.ACK']
+    if len(loops) != 1:
+        raise Unsupported('Chipset.command: ACK wait loop')
+    tail = body[loops[0] + 1:]
+    fn = _ParseFn(_synth('x', ['cmd_code', 'frame'], [ast.Pass()]), {'cmd_code': I, 'frame': B}, consts={'self.SOF': sof})
+    env = {'cmd_code': (I, True), 'frame': (B, True)}
+    text = _parse_block(fn, tail, env, None)
+    return 'Definition gen_pn53x_parse (cmd_code : Z) (frame : list Z) : res (list Z) :=\n  %s.\n' % text
+
+
 def generate(repo):
     out = [py2coq.PRELUDE % {'src': 'src/nfc/clf/pn53x.py, acr122.py, rcs380.py (frame construction statements)'}]
-    for g in (pn53x_build, acr122_build, rcs380_build):
+    for g in (pn53x_build, acr122_build, rcs380_build, pn53x_parse):
         out.append(g(repo))
         out.append('\n')
     return ''.join(out)
